@@ -56,8 +56,10 @@ def toolkit(c, p, maxs, th):
 def aead(c, p, th):
     rng = c.rng
     for sc, klen, rate in [('aead128', 16, 8), ('aead128a', 16, 16), ('aead80pq', 20, 8)]:
-        shapes = [(a, m) for a in (0, 1, rate, rate + 3) for m in (0, 1, rate - 1, rate, rate + 1, 2 * rate, 2 * rate + 5)]
-        if not th: shapes = rng.sample(shapes, 10)
+        # message lengths in both 8-byte halves of a 16-byte rate, below / at / above every word and block boundary
+        mls = sorted(set([0, 1, 7, 8, 9, rate - 1, rate, rate + 1, rate + rate // 2 + 1, 2 * rate, 2 * rate + 5]))
+        shapes = [(a, m) for a in (0, 1, rate, rate + 3) for m in mls]
+        if not th: shapes = [(rng.choice([0, 1, rate, rate + 3]), m) for m in mls]       # every message-length class, one AD length each
         for adl, ml in shapes:
             k = pattern(rng, klen); n = pattern(rng, 16); ad = pattern(rng, adl); m = pattern(rng, ml)
             t = tape(rng)
